@@ -2,6 +2,7 @@
 import itertools
 
 from .. import drv_nn as D
+from .. import containers as C
 from ..core import pmap
 
 
@@ -43,6 +44,8 @@ def run(ctx):
     t3 = []
     for i in range(n3):
         p = {"k_nn": rng.choice([2, 3, 5]), "sampling_times": rng.choice([40, 80]), "alpha": rng.choice([0.01, 0.05, 0.2])}
+        if i % 3 != 0:
+            C.choose(rng, p, C.BATCH_KINDS)
         t3.append(D.run_nndvi(p, D.nndvi_history(rng, nb, equal_sizes=(i % 4 == 0)), seed=rng.randrange(10 ** 6)))
     ctx.validate("NNSP", t3, "NNDVI batch histories (unequal batch sizes)", sabotage=D.sabotage,
                  replay=lambda i: {"mode": "nndvi", "params": t3[i]["params"], "script": t3[i]["script"], "seed": t3[i]["seed"]},
